@@ -11,10 +11,11 @@ CODE_FIXWRAP = True
 
 
 # quick tier: each ring property replays the coverage-goal witnesses closest to it (thorough: every property replays all of them)
-_DATA = ["join-granted-with-keys", "leave-transfer-with-keys", "leave2-selffirst-refused-not-predecessor", "join-refused-pred-unsettled"]
+_DATA = ["join-granted-with-keys", "leave-transfer-with-keys", "leave2-selffirst-refused-not-predecessor-with-keys-stale-read",
+         "leave1-succfirst-refused-not-predecessor-with-keys-stale-read", "join-refused-pred-unsettled"]
 QUICK_GOALS = {
     "C03": _DATA,
-    "C04": ["join-granted-with-keys", "leave-transfer-with-keys"],
+    "C04": ["join-granted-with-keys", "leave-transfer-with-keys", "leave1-succfirst-refused-not-predecessor-with-keys-stale-read"],
     "C05": _DATA + ["checkpred-cleared"],
     "C06": [g for g in ringlib.GOALS if g in ringlib.GOAL_AT and (g.startswith("leave") or g.startswith("join-refused"))],
     "C08": ["join-refused-busy", "join-refused-pred-unsettled", "join-granted-with-keys", "checkpred-cleared", "leave-no-neighbour"],
@@ -62,6 +63,7 @@ def engine(ck, pid, kinds, n_quick=40, n_thorough=400, gen_kw=None, mc=True):
     for i in range(n):
         kw = dict(gen_kw or {})
         kw.setdefault("kv_gates", i % 2 == 0)      # every other scenario parks client operations at the kv:local gate
+        kw.setdefault("ns_gates", i % 2 == 1)      # the others park leaves before their lock transitions (own and successor's)
         if ck.thorough and i % 3 == 0:
             kw.update(n_nodes=7, n_init=4, n_join=2, n_leave=2, n_keys=4, n_ops=8)
         elif i % 4 == 1:
